@@ -408,12 +408,14 @@ class POXCore (EventMixin):
       vwarn("Support for Python 3 is experimental.")
 
     self.starting_up = False
+    # Hold a deferral of our own while GoingUp is delivered, so that handlers
+    # releasing theirs immediately can't complete the startup early (or twice)
+    deferral = self._get_go_up_deferral()
     self.raiseEvent(GoingUpEvent())
 
     self._add_signal_handlers()
 
-    if not self._go_up_deferrals:
-      self._goUp_stage2()
+    deferral()
 
   def _get_go_up_deferral (self):
     """
